@@ -329,6 +329,11 @@ def object_shapes(nm: Namer) -> Dict[str, Callable[[T, Ctx], Optional[T]]]:
             (F("a", x), F("next", Opt(Ref(n)), default="None", has_default=True, default_value=None, cons=(("max_props", 1),))),
         )
 
+    def rec_tuple(x, c):
+        # the cycle goes through a fixed-size tuple whose first element is not the recursive one
+        n = nm("O")
+        return Obj("dataclass", n, (F("a", x), F("child", Opt(Tup((STR, Ref(n)))), default="None", has_default=True, default_value=None)))
+
     def rec_list(x, c):
         n = nm("O")
         return Obj("dataclass", n, (F("a", x), F("kids", Coll("list", Ref(n)), factory="list", default_value=[])))
